@@ -100,6 +100,7 @@ main(int argc, char** argv)
   char* tok[V_MAX_TOK];
   int   n = 0;
   v_setup_io();
+  v_watchdog(20);
   if (posix_memalign((void**)&arena, 64, ARENA)) {
     return 2;
   }
